@@ -26,6 +26,7 @@ import (
 	"github.com/New-JAMneration/JAM-Protocol/internal/service_account"
 	"github.com/New-JAMneration/JAM-Protocol/internal/types"
 	"github.com/New-JAMneration/JAM-Protocol/internal/utilities/hash"
+	"github.com/New-JAMneration/JAM-Protocol/internal/utilities/merklization"
 	"github.com/New-JAMneration/JAM-Protocol/internal/verifdrv/vfd"
 )
 
@@ -264,6 +265,9 @@ type hcEnv struct {
 	tab  string
 	add  HostCallArgs
 	self types.ServiceID
+	// raw ("unmatched") storage key-values the driver installed: state key -> (service, storage key), so the pool can be
+	// logged by service and storage key (the state-key construction itself is C15/C17's business)
+	kvAttr map[types.StateKey][2][]byte
 }
 
 var regs7 uint64
@@ -278,6 +282,13 @@ func hcBuildCtx(tab string, j map[string]any) *hcEnv {
 	self := types.ServiceID(hcU32(j["self"]))
 	env.self = self
 	skv := types.StateKeyVals{}
+	env.kvAttr = map[types.StateKey][2][]byte{}
+	for _, e := range hcList(j["kv"]) { // [service(4), storage key, value]: storage entries that live only in the raw key-value pool
+		t := e.([]any)
+		kvp := merklization.WrapEncodeDelta2KeyVal(types.ServiceID(hcU32(t[0])), types.ByteSequence(vfd.Bytes(t[1])), types.ByteSequence(vfd.Bytes(t[2])))
+		skv = append(skv, kvp)
+		env.kvAttr[kvp.Key] = [2][]byte{vfd.Bytes(t[0]), vfd.Bytes(t[1])}
+	}
 	mode := tab
 	if len(mode) > 0 && mode[0] == 'd' {
 		mode = mode[1:]
@@ -539,7 +550,32 @@ func hcProjMachines(m IntegratedPVMMap) []any {
 	return out
 }
 
-func hcProjResultContext(rc *ResultContext, ts types.TimeSlot) map[string]any {
+func hcProjPool(kv *types.StateKeyVals, attr map[types.StateKey][2][]byte) []any {
+	type ent struct{ svc, key, val []byte }
+	es := []ent{}
+	if kv != nil {
+		for _, e := range *kv {
+			if a, ok := attr[e.Key]; ok {
+				es = append(es, ent{a[0], a[1], e.Value})
+			} else {
+				es = append(es, ent{[]byte{}, e.Key[:], e.Value})
+			}
+		}
+	}
+	sort.Slice(es, func(i, j int) bool {
+		if c := bytes.Compare(es[i].svc, es[j].svc); c != 0 {
+			return c < 0
+		}
+		return bytes.Compare(es[i].key, es[j].key) < 0
+	})
+	out := []any{}
+	for _, e := range es {
+		out = append(out, []any{vfd.B(e.svc), vfd.B(e.key), vfd.B(e.val)})
+	}
+	return out
+}
+
+func hcProjResultContext(rc *ResultContext, ts types.TimeSlot, attr map[types.StateKey][2][]byte) map[string]any {
 	ps := rc.PartialState
 	xf := []any{}
 	for _, t := range rc.DeferredTransfers {
@@ -596,15 +632,11 @@ func hcProjResultContext(rc *ResultContext, ts types.TimeSlot) map[string]any {
 		}
 		aq = append(aq, hcFNV(qb))
 	}
-	nkv := 0
-	if rc.StorageKeyVal != nil {
-		nkv = len(*rc.StorageKeyVal)
-	}
 	return map[string]any{
 		"self": hcLE4(uint32(rc.ServiceID)), "nextid": hcLE4(uint32(rc.ImportServiceID)), "t": hcLE4(uint32(ts)),
 		"svcs": hcProjAccounts(ps.ServiceAccounts), "xfers": xf,
 		"priv":  map[string]any{"bless": hcLE4(uint32(ps.Bless)), "assign": assign, "designate": hcLE4(uint32(ps.Designate)), "create": hcLE4(uint32(ps.CreateAcct)), "always": always},
-		"yield": yield, "prov": prov, "vk": hcFNV(vk), "aq": aq, "nkv": nkv,
+		"yield": yield, "prov": prov, "vk": hcFNV(vk), "aq": aq, "kv": hcProjPool(rc.StorageKeyVal, attr),
 		"machines": []any{}, "nexp": 0, "expd": []any{}, "expoff": 0,
 	}
 }
@@ -616,7 +648,7 @@ func (e *hcEnv) project() map[string]any {
 	}
 	switch mode {
 	case "acc":
-		return hcProjResultContext(&e.add.AccumulateArgs.ResultContextX, e.add.AccumulateArgs.Timeslot)
+		return hcProjResultContext(&e.add.AccumulateArgs.ResultContextX, e.add.AccumulateArgs.Timeslot, e.kvAttr)
 	case "ref":
 		expd := []any{}
 		for _, s := range e.add.RefineArgs.ExportSegment {
@@ -626,14 +658,14 @@ func (e *hcEnv) project() map[string]any {
 			"self": hcLE4(uint32(e.self)), "nextid": hcLE4(0), "t": hcLE4(uint32(e.add.RefineArgs.TimeSlot)),
 			"svcs": hcProjAccounts(*e.add.GeneralArgs.ServiceAccountState), "xfers": []any{},
 			"priv":  map[string]any{"bless": hcLE4(0), "assign": []any{}, "designate": hcLE4(0), "create": hcLE4(0), "always": []any{}},
-			"yield": []int{}, "prov": []any{}, "vk": hcFNV(), "aq": []any{}, "nkv": 0,
+			"yield": []int{}, "prov": []any{}, "vk": hcFNV(), "aq": []any{}, "kv": []any{},
 			"machines": hcProjMachines(e.add.RefineArgs.IntegratedPVMMap), "nexp": len(e.add.RefineArgs.ExportSegment),
 			"expd": expd, "expoff": int(e.add.RefineArgs.ExportSegmentOffset),
 		}
 	}
 	return map[string]any{"self": hcLE4(0), "nextid": hcLE4(0), "t": hcLE4(0), "svcs": []any{}, "xfers": []any{},
 		"priv":  map[string]any{"bless": hcLE4(0), "assign": []any{}, "designate": hcLE4(0), "create": hcLE4(0), "always": []any{}},
-		"yield": []int{}, "prov": []any{}, "vk": hcFNV(), "aq": []any{}, "nkv": 0, "machines": []any{}, "nexp": 0, "expd": []any{}, "expoff": 0}
+		"yield": []int{}, "prov": []any{}, "vk": hcFNV(), "aq": []any{}, "kv": []any{}, "machines": []any{}, "nexp": 0, "expd": []any{}, "expoff": 0}
 }
 
 // canonical projection of the checkpoint context Y (accumulate only); "" otherwise
@@ -641,7 +673,7 @@ func (e *hcEnv) projectY() []byte {
 	if e.tab != "acc" && e.tab != "dacc" {
 		return nil
 	}
-	return hcJSON(hcProjResultContext(&e.add.AccumulateArgs.ResultContextY, e.add.AccumulateArgs.Timeslot))
+	return hcJSON(hcProjResultContext(&e.add.AccumulateArgs.ResultContextY, e.add.AccumulateArgs.Timeslot, e.kvAttr))
 }
 
 // the two general-argument views of the accumulating service against the context X
